@@ -324,7 +324,27 @@ pub fn default_value(d: &J, s: &S, env: &Env) -> Result<V, String> {
             }
             V::Map(out)
         }
-        S::Union(br) => V::Union(0, Box::new(default_value(d, br.first().ok_or("empty union")?, env)?)),
+        // The default of a union matches its first branch (specification up to 1.11) or, since 1.12,
+        // any one branch: the first branch it conforms to, in order.
+        S::Union(br) => {
+            let mut first_err = None;
+            let mut hit = None;
+            for (i, b) in br.iter().enumerate() {
+                match default_value(d, b, env) {
+                    Ok(v) => {
+                        hit = Some(V::Union(i, Box::new(v)));
+                        break;
+                    }
+                    Err(e) => {
+                        first_err.get_or_insert(e);
+                    }
+                }
+            }
+            match hit {
+                Some(v) => v,
+                None => return Err(first_err.unwrap_or_else(|| "empty union".to_string())),
+            }
+        }
         S::Record { fields, .. } => {
             let o = d.as_object().ok_or("object expected")?;
             let mut out = vec![];
